@@ -29,7 +29,7 @@ For each defect X in (A, B) write, inside {wt}/MUTANT/:
   - X.notes.md   : 5-10 lines: what was changed, which clause of the property it breaks, what exactly is needed for it to manifest, and the commands you ran (test-suite result with the patch, demo result with and without the patch).
 Procedure per defect: start from a clean checkout (`git -C {wt} checkout -- .`; the MUTANT directory is untracked and stays), make the change, run the test-suite, run the demo (must fail), save `git diff > MUTANT/X.patch.diff`, revert with `git checkout -- .`, run the demo again (must pass). Leave the checkout clean (reverted) at the end, with only the MUTANT/ directory added. Before finishing, double-check both patches apply cleanly with `git apply --check`.
 
-Known limitations of the unchanged checkout (do not build on these; your demo must pass on the unchanged checkout): matmul with 1-d operands does not follow numpy; size-0 (empty) arrays lose their shape; repeat without an axis repeats along axis 0; power with non-integer exponents truncates them; a numpy scalar on the left of / % divmod dispatches to numeric division. On the unchanged checkout the test-suite fails exactly these 12 tests and no others: test_count_nonzero[numpoly|numpy], test_amax[numpoly|numpy], test_amin[numpoly|numpy], test_max[numpoly|numpy|method], test_min[numpoly|numpy|method] (their expectations are known to be wrong); with your change the outcome must be identical. Run the suite WITHOUT -x.
+Known limitations of the unchanged checkout (do not build on these; your demo must pass on the unchanged checkout): matmul with 1-d operands does not follow numpy; size-0 (empty) arrays lose their shape; repeat without an axis repeats along axis 0; power with non-integer exponents truncates them; a numpy scalar on the left of / % divmod dispatches to numeric division. On the unchanged checkout the test-suite fails exactly these 12 tests and no others: test_count_nonzero[numpoly|numpy], test_amax[numpoly|numpy], test_amin[numpoly|numpy], test_max[numpoly|numpy|method], test_min[numpoly|numpy|method] (their expectations are known to be wrong); with your change the outcome must be identical. Run the suite WITHOUT -x. Never use `git stash` (the stash is shared between all worktrees and other agents work concurrently); to compare with the unchanged checkout save your diff to a file and use `git checkout -- .`.
 
 This is a second round: the most obvious single-line slips at the central sites of this property have been tried already. Prefer defects that are subtler or sit in less obvious places: a second code path that is only taken for particular operand kinds, shapes, dtypes, option settings or name sets; state shared between two calls; a helper used by several functions; an interaction of two features; an order-of-operations change that only matters for particular inputs.
 
